@@ -150,6 +150,30 @@ func specUnusedValueKind(t StatementType) bool {
 	return false
 }
 
+// specReadRepeatedly: a literal or a plain variable can be read again and again; anything else
+// (a call, an operation) must be evaluated once and its value kept.
+func specReadRepeatedly(e Expression) bool {
+	switch e.(type) {
+	case BooleanLiteral, IntegerLiteral, StringLiteral, VariableEvaluation:
+		return true
+	}
+	return false
+}
+
+// specSwitchIf: the if-chain a switch statement is translated into.  When the tag is kept in a
+// hidden variable the chain is the second statement of a wrapper "if true { _sw := tag; chain }".
+func specSwitchIf(s Statement) If {
+	if i, ok := s.(If); ok {
+		if c, isLit := i.ifBranch.condition.(BooleanLiteral); isLit && c.value && len(i.ifBranch.body) == 2 {
+			if inner, isIf := i.ifBranch.body[1].(If); isIf {
+				return inner
+			}
+		}
+		return i
+	}
+	return If{}
+}
+
 // specReservedName: identifiers the back ends own (temporaries _h<n>, registers _rv<n> _fa<n>,
 // loop flags _fv<n>, dynamic arrays _dv<n> _dvc, helper routines and their scratch variables).
 func specReservedName(name string) bool {
@@ -171,9 +195,21 @@ func specVarVisible(c context, name string, prefix string) bool {
 	return ok
 }
 
-// specVarKey: the key under which a variable of that name is looked up.
+// specVarKey: the key under which a variable of that name is found: the key of the current scope
+// first; from inside a function also the key the file's globals are kept under (for the main file
+// the two are the same, for an imported file the global key carries the file's prefix).
 func specVarKey(c context, name string, prefix string) string {
-	key, _ := c.buildPrefixedName(name, prefix, c.global(), true)
+	key, err := c.buildPrefixedName(name, prefix, c.global(), true)
+	if err != nil {
+		return key
+	}
+	if _, ok := c.variables[key]; ok || c.global() {
+		return key
+	}
+	globalKey, globalErr := c.buildPrefixedName(name, prefix, true, true)
+	if globalErr == nil {
+		return globalKey
+	}
 	return key
 }
 
@@ -345,8 +381,10 @@ func specInScope(stack []scope, n int, s scope) bool {
 //@   ensures[C13] a-statement-or-an-error: err == nil ==> result0 != nil
 //@   loop @"CLOSING_CURLY_BRACKET" invariant[C01,C12] the-token-decided-on-is-the-current-token: nextToken == p.peek()
 //@   loop @"CLOSING_CURLY_BRACKET" invariant[C01,C04] one-branch-per-case: (useMock ==> calls(evaluateExpression) == ite(old(p.peekAt(1)).tokenType == lexer.OPENING_CURLY_BRACKET, 0, 1) && len(fakeIf.elifBranches) == 0) && (!useMock ==> 1 + len(fakeIf.elifBranches) == calls(evaluateExpression) - ite(old(p.peekAt(1)).tokenType == lexer.OPENING_CURLY_BRACKET, 0, 1))
-//@   ensures[C01,C04,FINDING] the-tag-is-evaluated-once-however-many-cases-compare-with-it: err == nil && old(p.peekAt(1)).tokenType != lexer.OPENING_CURLY_BRACKET && calls(evaluateExpression) >= 3 ==> specNoCall(res(evaluateExpression, 0, 0))
-//@   ensures[C01,C04] one-branch-per-case-in-order: err == nil && calls(evaluateExpression) > ite(old(p.peekAt(1)).tokenType == lexer.OPENING_CURLY_BRACKET, 0, 1) ==> isType(result0, "parser.If") && 1 + len(asType(result0, "parser.If").elifBranches) == calls(evaluateExpression) - ite(old(p.peekAt(1)).tokenType == lexer.OPENING_CURLY_BRACKET, 0, 1)
+//@   loop @"CLOSING_CURLY_BRACKET" invariant[C01,C04] every-case-is-compared-with-the-one-tag-value: (!useMock ==> isType(fakeIf.ifBranch.condition, "parser.Comparison") && asType(fakeIf.ifBranch.condition, "parser.Comparison").left == tagExpr) && forall(k, 0, len(fakeIf.elifBranches), isType(fakeIf.elifBranches[k].condition, "parser.Comparison") && asType(fakeIf.elifBranches[k].condition, "parser.Comparison").left == tagExpr)
+//@   ensures[C01,C04] a-tag-that-cannot-be-read-repeatedly-is-evaluated-once-into-a-hidden-variable: err == nil && old(p.peekAt(1)).tokenType != lexer.OPENING_CURLY_BRACKET && calls(evaluateExpression) >= 1 && !specReadRepeatedly(res(evaluateExpression, 0, 0)) ==> isType(result0, "parser.If") && asType(result0, "parser.If").ifBranch.condition == specBoolLit(true) && len(asType(result0, "parser.If").ifBranch.body) == 2 && isType(asType(result0, "parser.If").ifBranch.body[0], "parser.VariableDefinition") && len(asType(asType(result0, "parser.If").ifBranch.body[0], "parser.VariableDefinition").values) == 1 && asType(asType(result0, "parser.If").ifBranch.body[0], "parser.VariableDefinition").values[0] == res(evaluateExpression, 0, 0) && len(asType(asType(result0, "parser.If").ifBranch.body[0], "parser.VariableDefinition").variables) == 1 && isType(asType(result0, "parser.If").ifBranch.body[1], "parser.If") && len(asType(result0, "parser.If").elifBranches) == 0 && len(asType(result0, "parser.If").elseBranch.body) == 0
+//@   ensures[C01,C04] the-tag-is-evaluated-once-however-many-cases-compare-with-it: err == nil && old(p.peekAt(1)).tokenType != lexer.OPENING_CURLY_BRACKET && calls(evaluateExpression) >= 2 ==> isType(specSwitchIf(result0).ifBranch.condition, "parser.Comparison") && forall(k, 0, len(specSwitchIf(result0).elifBranches), isType(specSwitchIf(result0).elifBranches[k].condition, "parser.Comparison") && asType(specSwitchIf(result0).elifBranches[k].condition, "parser.Comparison").left == asType(specSwitchIf(result0).ifBranch.condition, "parser.Comparison").left) && (specReadRepeatedly(res(evaluateExpression, 0, 0)) ==> asType(specSwitchIf(result0).ifBranch.condition, "parser.Comparison").left == res(evaluateExpression, 0, 0)) && (!specReadRepeatedly(res(evaluateExpression, 0, 0)) ==> asType(specSwitchIf(result0).ifBranch.condition, "parser.Comparison").left == specVarEval(asType(asType(result0, "parser.If").ifBranch.body[0], "parser.VariableDefinition").variables[0]))
+//@   ensures[C01,C04] one-branch-per-case-in-order: err == nil && calls(evaluateExpression) > ite(old(p.peekAt(1)).tokenType == lexer.OPENING_CURLY_BRACKET, 0, 1) ==> isType(result0, "parser.If") && 1 + len(specSwitchIf(result0).elifBranches) == calls(evaluateExpression) - ite(old(p.peekAt(1)).tokenType == lexer.OPENING_CURLY_BRACKET, 0, 1)
 //
 //@ func (*Parser).evaluateImports
 //@   loop @"for#1" invariant[C13] every-imported-statement-so-far-is-there: forall(k, 0, len(statementsTemp), statementsTemp[k] != nil)
@@ -355,6 +393,10 @@ func specInScope(stack []scope, n int, s scope) bool {
 //@   ensures[C13] every-statement-is-there: err == nil ==> forall(k, 0, len(result0), result0[k] != nil)
 //@   loop @"range usedFuncs" invariant[C09,C16] merge-keeps-imported-edges: has(p.usedFuncs, funcName) && forall(k, 0, rangeindex + 1, inList(get(p.usedFuncs, funcName), usedFuncs[k])) && samePrefix(foundUsedFuncs, get(p.usedFuncs, funcName))
 //@   loop @"range usedFuncs" exit[C09,C16] every-imported-edge-of-this-caller-merged: forall(k, 0, len(usedFuncs), inList(get(p.usedFuncs, funcName), usedFuncs[k]))
+//@   loop @"range statementsTemp" invariant[C09,C16] every-function-kept-so-far-is-marked-as-defined: forall(k, 0, len(statements), isType(statements[k], "parser.FunctionDefinition") ==> has(definedFunctions, asType(statements[k], "parser.FunctionDefinition").name) && get(definedFunctions, asType(statements[k], "parser.FunctionDefinition").name))
+//@   loop @"range definedVariable.Variables()" invariant[C09,C16] every-function-kept-so-far-is-marked-as-defined: forall(k, 0, len(statements), isType(statements[k], "parser.FunctionDefinition") ==> has(definedFunctions, asType(statements[k], "parser.FunctionDefinition").name) && get(definedFunctions, asType(statements[k], "parser.FunctionDefinition").name))
+//@   loop @"range statementsTemp" invariant[C09,C16] no-function-is-defined-twice-so-far: forall(i, 0, len(statements), forall(j, 0, i, isType(statements[i], "parser.FunctionDefinition") && isType(statements[j], "parser.FunctionDefinition") ==> asType(statements[i], "parser.FunctionDefinition").name != asType(statements[j], "parser.FunctionDefinition").name))
+//@   ensures[C09,C16] a-file-reached-along-several-import-paths-defines-its-functions-once: err == nil ==> forall(i, 0, len(result0), forall(j, 0, i, isType(result0[i], "parser.FunctionDefinition") && isType(result0[j], "parser.FunctionDefinition") ==> asType(result0[i], "parser.FunctionDefinition").name != asType(result0[j], "parser.FunctionDefinition").name))
 //@   loop @"range statementsTemp" invariant[C09] imported-top-level-code-kept: len(statements) >= specCountOther(statementsTemp, rangeindex + 1)
 //
 // A parser always has a non-negative token index and a call-graph map; a context that is handed
@@ -390,6 +432,7 @@ func specInScope(stack []scope, n int, s scope) bool {
 // The prefix that keeps the definitions of an imported file apart is a digest of the bytes of that
 // file and of nothing else (not of its path): the same file has the same prefix wherever it lies.
 //@ func (*Parser).parse
+//@   callsite evaluateProgram requires[C09] the-prefix-of-an-imported-file-starts-with-a-letter: imported ==> hasPrefix(p.prefix, "m") && len(p.prefix) == 8
 //@   ensures[C13] every-statement-is-there: err == nil ==> forall(k, 0, len(result0.body), result0.body[k] != nil)
 //@   flag nocommon: true
 //@   ensures[C09,C14] prefix-hashes-exactly-the-file-content: imported && err == nil ==> calls(crypto_sha256_New) == 1 && seq(crypto_sha256_New, 0) < seq(Write, 0) && calls(Write) == 1 && calls(os_ReadFile) == 1 && arg(Write, 0, 0) == res(os_ReadFile, 0, 0) && calls(Sum) == 1 && seq(Write, 0) < seq(Sum, 0)
@@ -568,6 +611,8 @@ func specInScope(stack []scope, n int, s scope) bool {
 func asExprFromCall(c Call) Expression { return c }
 
 func specIntLit(v int) Expression { return IntegerLiteral{value: v} }
+
+func specBoolLit(v bool) Expression { return BooleanLiteral{value: v} }
 
 // specVarEval, specLen: the expressions "the value of v" and "len(e)".
 func specVarEval(v Variable) Expression { return VariableEvaluation{v} }
